@@ -19,6 +19,8 @@ from . import driver, replay
 REQ_OK = ['req_get', 'req_head', 'req_post_cl3', 'req_post_cl0', 'req_get_b', 'req_host_only', 'req_cookies', 'req_str',
           'req_te_ok', 'req_connect_proto']
 REQ_OUT_REPAIRABLE = ['req_messy', 'req_secure_pad']
+REQ_BIG = ['req_big_16379', 'req_big_16380', 'req_big_16383', 'req_big_16384', 'req_big_16385', 'req_big_32768']
+RESP_BIG = ['resp_big_16380', 'resp_big_16384', 'resp_big_16385']
 REQ_BAD = ['req_nopath', 'req_emptypath', 'req_noauth', 'req_hostmismatch', 'req_te_bad', 'req_dupmethod', 'req_latepseudo',
            'req_custompseudo', 'req_status', 'req_proto_get', 'req_late_bad', 'req_upper', 'req_ws_name', 'req_ws_value',
            'req_conn', 'req_emptyname', 'req_nonutf8', 'req_auth_emptyhost', 'req_emptyauth_host', 'req_cookies_dup', 'empty']
@@ -67,8 +69,14 @@ class G:
 
     # ------------------------------------------------------------ plumbing
     def do(self, s):
+        if s['a'] == 'call' and s['c'].get('op') in ('hdr', 'push'):
+            s = dict(s, c=dict(s['c'], sz=True))      # observe the sizes of the frames that carry the header block
         obs = self.sess.step(replay.resolve(s, self.cat))
         s = dict(s)
+        if s['a'] == 'call' and s['c'].get('sz') and self.sess.last_block_lens:
+            # the length of the HPACK block the call wrote is logged with the call: the specification does not model
+            # Huffman / dynamic-table coding, it is told the length and predicts how the block is cut into frames
+            s['c'] = dict(s['c'], bl=self.sess.last_block_lens[0])
         s['p'] = obs
         self.steps.append(s)
         return obs
@@ -543,6 +551,8 @@ class G:
                 except Exception:
                     sid = 1
                 name = r.choice(REQ_OK + REQ_OUT_REPAIRABLE)
+                if f == 'headers' and r.random() < 0.25:
+                    name = r.choice(REQ_BIG)
                 return {'op': 'hdr', 'sid': sid, 'h': name, 'es': r.random() < 0.4,
                         'pr': [] if r.random() < 0.85 else [[r.randrange(1, 257)], r.choice([[], [0], [sid + 2]]), r.choice([[], [True]])]}
             if len(live) < 6:
@@ -555,6 +565,8 @@ class G:
                     t = r.choice(need)
                     if r.random() < 0.2 and t['st'] != 'RESERVED_LOCAL':
                         return {'op': 'hdr', 'sid': t['sid'], 'h': r.choice(INFO), 'es': False, 'pr': []}
+                    if f == 'headers' and r.random() < 0.2:
+                        return {'op': 'hdr', 'sid': t['sid'], 'h': r.choice(RESP_BIG), 'es': r.random() < 0.3, 'pr': []}
                     return {'op': 'hdr', 'sid': t['sid'], 'h': r.choice(RESP_OK + RESP_OUT_REPAIRABLE), 'es': r.random() < 0.3, 'pr': []}
                 opts.append((w('resp', 7), resp))
             parents = [t for t in ss if t['st'] in self.SEND_OK and t['sid'] % 2 == 1]
@@ -562,7 +574,8 @@ class G:
                 def push():
                     z = self.z(x)
                     hi = z.get('hiOut', 0) or 0
-                    return {'op': 'push', 'sid': r.choice(parents)['sid'], 'pid': hi + 2, 'h': r.choice(REQ_OK)}
+                    return {'op': 'push', 'sid': r.choice(parents)['sid'], 'pid': hi + 2,
+                            'h': r.choice(REQ_BIG) if f == 'headers' and r.random() < 0.25 else r.choice(REQ_OK)}
                 opts.append((w('push', 2), push))
             altable = [t for t in ss if t['hr'] and not t['hs'] and t['st'] in self.SEND_OK]
 
